@@ -1,12 +1,13 @@
 import EupsModel.Drv.Util
 import EupsModel.Model.Cache
+import EupsModel.Model.DbFile
 /-! Driver handler of the database family (C06, C15, C07): run a history of commands on `Cache.World`.
 
 Request `{"m":"c06","nst":2,"dirs":[[root,rel,tname]..],"pinned":false,"cmds":[cmd..]}` with
 `cmd = {"op":"declare"|"undeclare"|"assignTag"|"unassignTag"|"query"|"rmcache", "user":0, "self":"Linux", ...}`;
 answer `{"steps":[{"out","crashed","flavs","view","trace","db","caches"}..]}` — the state after every command. -/
 namespace EupsModel.Drv.C06
-open Lean EupsModel EupsModel.Drv EupsModel.Db EupsModel.Cache
+open Lean EupsModel EupsModel.Drv EupsModel.Db EupsModel.Cache EupsModel.DbFile
 
 def jnatOpt (j : Json) (k : String) : Except String (Option Nat) :=
   match j.getObjVal? k with
@@ -47,7 +48,22 @@ def declareOfJson (self : Flav) (j : Json) : Except String Cmd := do
   let tag ← jstrOpt j "tag"
   let force ← jboolD j "force"
   let noaction ← jboolD j "noaction"
-  pure (Cmd.declare ⟨self, name, ver, dir, stack, tableNone, tag, force, noaction⟩)
+  let ext ← match j.getObjVal? "ext" with
+    | .ok (Json.arr a) => a.toList.mapM fun e => do
+        let x ← e.getArr?
+        if h : x.size = 2 then pure (Str.ofString (← x[0].getStr?), ← x[1].getNat?) else throw "ext: expected [path, content]"
+    | _ => pure []
+  pure (Cmd.declare ⟨self, name, ver, dir, stack, tableNone, tag, force, noaction, ext⟩)
+
+def setupOfJson (j : Json) : Except String (Option (Ver × Flav × Nat)) :=
+  match j.getObjVal? "setup" with
+  | .ok Json.null => pure none
+  | .ok v => do
+    let a ← v.getArr?
+    if h : a.size = 3 then
+      pure (some (Str.ofString (← a[0].getStr?), Str.ofString (← a[1].getStr?), ← a[2].getNat?))
+    else throw "setup: expected [version, flavor, stack]"
+  | .error _ => pure none
 
 def undeclareOfJson (self : Flav) (j : Json) : Except String Cmd := do
   let name ← jstr j "name"
@@ -56,7 +72,9 @@ def undeclareOfJson (self : Flav) (j : Json) : Except String Cmd := do
   let tag ← jstrOpt j "tag"
   let vat ← jboolD j "vat"
   let noaction ← jboolD j "noaction"
-  pure (Cmd.undeclare ⟨self, name, ver, stack, tag, vat, noaction⟩)
+  let force ← jboolD j "force"
+  let setup ← setupOfJson j
+  pure (Cmd.undeclare ⟨self, name, ver, stack, tag, vat, noaction, force, setup⟩)
 
 def assignOfJson (self : Flav) (j : Json) : Except String Cmd := do
   let tag ← jstr j "tag"
@@ -78,12 +96,16 @@ def removeOfJson (self : Flav) (j : Json) : Except String Cmd := do
   let ver ← jstr j "version"
   let noaction ← jboolD j "noaction"
   let recursive ← jboolD j "recursive"
-  pure (Cmd.remove self name ver recursive noaction)
+  let force ← jboolD j "force"
+  let setup ← setupOfJson j
+  pure (Cmd.remove self name ver recursive noaction force setup)
 
 def cmdOfJson (j : Json) : Except String WCmd := do
   let op ← (← j.getObjVal? "op").getStr?
   let user := (← jnatOpt j "user").getD 0
-  if op == "rmcache" then
+  if op == "clearcache" then
+    pure (.clearCache user)
+  else if op == "rmcache" then
     let s ← jnat j "stack"
     let f ← jstr j "flavor"
     pure (.rmCache user s f)
@@ -120,38 +142,56 @@ def ofTagOpt : Option Tag → Json
   | none => Json.null
   | some t => ofStr t
 def ofEff : Eff → Json
-  | .dbDeclare d t => Json.arr #["dbDeclare", ofDecl d, ofTagOpt t]
-  | .dbUndeclare s n v f => Json.arr #["dbUndeclare", Json.num s, ofStr n, ofStr v, ofStr f]
-  | .dbAssign s t n f v => Json.arr #["dbAssign", Json.num s, ofStr t, ofStr n, ofStr f, ofStr v]
-  | .dbUnassign s t n f => Json.arr #["dbUnassign", Json.num s, ofStr t, ofStr n, ofStr f]
-  | .memAdd d t => Json.arr #["memAdd", ofDecl d, ofTagOpt t]
-  | .memRemove s n v f => Json.arr #["memRemove", Json.num s, ofStr n, ofStr v, ofStr f]
-  | .memAssign s t n f v => Json.arr #["memAssign", Json.num s, ofStr t, ofStr n, ofStr f, ofStr v]
-  | .memUnassign s t n f => Json.arr #["memUnassign", Json.num s, ofStr t, ofStr n, ofStr f]
-  | .save s f => Json.arr #["save", Json.num s, ofStr f]
+  | .declare d t => Json.arr #["declare", ofDecl d, ofTagOpt t]
+  | .undeclare s n v f => Json.arr #["undeclare", Json.num s, ofStr n, ofStr v, ofStr f]
+  | .assign s t n f v => Json.arr #["assign", Json.num s, ofStr t, ofStr n, ofStr f, ofStr v]
+  | .unassign s t n f => Json.arr #["unassign", Json.num s, ofStr t, ofStr n, ofStr f]
   | .rmTree d => Json.arr #["rmTree", ofDir d]
+  | .copyExtra x => Json.arr #["copyExtra", Json.num x.stack, ofStr x.flav, ofStr x.name, ofStr x.ver, ofStr x.path, Json.num x.content]
+def ofMsg : Msg → Json
+  | .declaring s t => Json.arr #["declaring", Json.num s, ofTagOpt t]
+  | .assigning t => Json.arr #["assigning", ofStr t]
+  | .untag t => Json.arr #["untag", ofStr t]
+  | .removing v s => Json.arr #["removing", ofStr v, Json.num s]
+  | .rmrf d => Json.arr #["rmrf", ofDir d]
+  | .copy path => Json.arr #["copy", ofStr path]
+
 def ofCache (c : CacheFile) : Json :=
   Json.mkObj [("user", Json.num c.user), ("stack", Json.num c.stack), ("flavor", ofStr c.flav),
               ("mtime", Json.num c.mtime), ("c", ofSpec c.c)]
 def ofTouch (t : Touch) : Json := Json.arr #[Json.num t.stack, ofStr t.name, Json.num t.mtime]
+
+def ofFileDb (F : FileDb) : Json :=
+  Json.mkObj
+    [("vfiles", Json.arr (F.vfiles.map fun x =>
+        Json.arr #[Json.num x.key.1, ofStr x.key.2.1, ofStr x.key.2.2, ofStrs (x.recs.map (·.flav))]).toArray),
+     ("cfiles", Json.arr (F.cfiles.map fun x =>
+        Json.arr #[Json.num x.key.1, ofStr x.key.2.1, ofStr x.key.2.2, ofStrs (x.recs.map (·.flav))]).toArray),
+     ("abs", ofSpec (DbFile.abs F))]
 
 def handle : Handler := fun j => do
   let nst ← jnat j "nst"
   let dirs ← (← jarr j "dirs").mapM dirEntOfJson
   let pinned ← jboolD j "pinned"
   let mut w := World.init nst dirs
+  let mut F := FileDb.empty
   let mut steps : Array Json := #[]
   for cj in (← jarr j "cmds") do
     let c ← cmdOfJson cj
     let r := stepG (!pinned) w c
     w := r.w
+    F := r.trace.foldl (fun F e => applyF e F) F
     steps := steps.push <| Json.mkObj
       [("out", ofOutcome r.out), ("crashed", Json.bool r.crashed),
        ("flavs", Json.arr (r.flavs.map ofStrs).toArray), ("view", ofSpec r.view),
-       ("trace", Json.arr (r.trace.map ofEff).toArray), ("db", ofSpec w.db),
+       ("trace", Json.arr (r.trace.map ofEff).toArray), ("would", Json.arr (r.would.map ofMsg).toArray),
+       ("db", ofSpec w.db),
        ("caches", Json.arr (w.caches.map ofCache).toArray),
        ("touch", Json.arr (w.touch.map ofTouch).toArray),
-       ("dirs", Json.arr (w.dirs.map fun d => ofDir d.dir).toArray)]
+       ("dirs", Json.arr (w.dirs.map fun d => ofDir d.dir).toArray),
+       ("files", ofFileDb F),
+       ("extras", Json.arr (w.extras.map fun x =>
+          Json.arr #[Json.num x.stack, ofStr x.flav, ofStr x.name, ofStr x.ver, ofStr x.path, Json.num x.content]).toArray)]
   pure (Json.mkObj [("steps", Json.arr steps)])
 
 end EupsModel.Drv.C06
